@@ -1,5 +1,5 @@
 """C13 — !call / !bind pass arguments as Python would; function nodes merge by table."""
-import sys, types, inspect, functools
+import os, sys, types, inspect, functools
 from .. import common, gen, evalcorr, oracles, ser
 from . import base
 from . import C07
@@ -188,6 +188,48 @@ def judge_table(case):
     return None
 
 
+def gen_table_included(rng):
+    """the incoming function node is itself the product of a merge: two files flattened by a key-level include, then merged as a whole"""
+    t1, t2 = 'vmod.u1', 'vmod.u2'
+    fmt = lambda d: '{' + ', '.join(f'{k}: {v}' for k, v in d.items()) + '}'
+    a1 = {k: rng.randint(1, 9) for k in rng.sample(['x', 'y', 'z'], rng.randint(1, 3))}
+    a2a = {k: rng.randint(11, 19) for k in rng.sample(['x', 'w'], rng.randint(0, 2))}
+    a2b = {k: rng.randint(21, 29) for k in rng.sample(['y', 'w', 'v'], rng.randint(1, 2))}
+    kind = rng.choice(['call', 'bind'])
+    T = rng.choice([t1, t2])
+    return dict(included=True, kind=kind, older=f'{{p: {{f: !{kind}:{t1} {fmt(a1)}, k: 0}}}}', f1=f'{{f: !{kind}:{T} {fmt(a2a)}}}', f2=f'{{f: {fmt(a2b)}}}',
+                row='same_target' if T == t1 else 'new_target', expect_target=T, expect_args={str(k): v for k, v in {**a2a, **a2b}.items()})
+
+
+def judge_table_included(case):
+    from awesomeyaml.config import Config
+    from awesomeyaml.builder import Builder
+    from .C06 import Sandbox
+    C07.install()
+    with Sandbox() as sb:
+        sb.write('d/f1.yaml', case['f1'] + '\n')
+        sb.write('d/f2.yaml', case['f2'] + '\n')
+        main = sb.write('d/main.yaml', 'p: !include [f1.yaml, f2.yaml]\n')
+        try:
+            b = Builder()
+            b.add_source(case['older'], raw_yaml=True, filename=os.path.join(sb.dir, 'd', 'older.yaml'))
+            b.add_source(main)
+            cfg = Config(b.build())
+        except Exception as e:
+            return dict(case=case, reason='unexpected failure', message=type(e).__name__ + ': ' + str(e)[:200])
+    r = cfg['p']['f']
+    if case['kind'] == 'call':
+        got_t, pos, kw = r.f, list(r.args), dict(r.kwargs)
+    else:
+        got_t, pos, kw = 'vmod.' + r.func.__name__, list(r.args), dict(r.keywords)
+    got_args = {str(i): v for i, v in enumerate(pos)}
+    got_args.update({str(k2): v for k2, v in kw.items()})
+    if got_t != case['expect_target'] or got_args != case['expect_args']:
+        return dict(case=case, reason='the function-node merge table is not followed when the incoming function node is the merged content of included files',
+                    expected=(case['expect_target'], case['expect_args']), got=(got_t, got_args))
+    return None
+
+
 def run(rep, tier, rng):
     rep.rule = ('(a) merge histories with !call/!bind nodes, string and list overlays (correspondence with Model.Merge); (b) evaluation of nodes with named targets (correspondence with '
                 'Model.Eval incl. resolve_args); (c) every target signature shape (positional, defaulted, keyword-only, *args, **kwargs, none) x argument mappings with integer keys incl. '
@@ -228,13 +270,15 @@ def run(rep, tier, rng):
     for c in tab:
         rep.count('table row ' + c['row'])
     base.run_oracle(rep, 'C13', 'function-node merge table', tab, judge_table)
+    base.run_oracle(rep, 'C13', 'merge table with an incoming function node that is the merged content of a key-level include',
+                    [gen_table_included(rng) for _ in range(40 if tier == 'quick' else 400)], judge_table_included)
 
 
 def replay(data):
     r = data['replay']
     if 'input' in r:
         x = r['input']
-        f = judge_table(x) if 'row' in x else judge_call(x)
+        f = judge_table_included(x) if x.get('included') else (judge_table(x) if 'row' in x else judge_call(x))
         print('replay:', 'property FAILS' if f else 'property holds', f or '')
         return 1 if f else 0
     print('no input to replay; broken obligations:', r)
